@@ -10,7 +10,7 @@ func init() {
 	register(&propDef{
 		id: "C08", title: "Restart backoff and fault counting are arithmetically correct",
 		technique: "guarded-arithmetic rule on the type-checked AST + CFG: every signed shift/multiply feeding a return has a dominating no-wrap guard; return-value classification; edge-fact dominance for the counter reset",
-		explanation: "Decides for backoffDelay: (i) every returned expression is the constant 0, the maxDelay parameter, or a value computed by a shift that is guarded; (ii) 0 is returned exactly on the 'initialDelay <= 0 || faults < 1' edge; (iii) no-wrap: every signed left shift (or multiplication) of a delay value is dominated by a guard that entails initialDelay <= maxDelay >> shift with the same operands, and by shift < 63, so the result equals initialDelay·2^(n-1) whenever it is returned; (iv) a computed delay is returned only when it was compared against maxDelay (delay > maxDelay leads to maxDelay). For recordFault: the consecutive-fault counter is reset only on the edge window > 0 ∧ last > 0 ∧ now-last > window, the counter is incremented exactly once on every path and its new value is what is returned, and the last-fault timestamp is stored on every path. Option constructor: WithExponentialBackoff stores delays only when initialDelay > 0 and forces maxDelay >= initialDelay. handleRestartDirective: the budget test dominates every restart and the backoff delay is computed from the faulty child's count.",
+		explanation: "Decides for backoffDelay: (i) every returned expression is the constant 0, the maxDelay parameter, or a value computed by a shift that is guarded; (ii) 0 is returned exactly on the 'initialDelay <= 0 || faults < 1' edge; (iii) no-wrap: every signed left shift (or multiplication) of a delay value is dominated by a guard that entails initialDelay <= maxDelay >> shift with the same operands, and by shift < 63, so the result equals initialDelay·2^(n-1) whenever it is returned; (iv) a computed delay is returned only when it was compared against maxDelay (delay > maxDelay leads to maxDelay). For recordFault: the consecutive-fault counter is reset only on the edge window > 0 ∧ last > 0 ∧ now-last > window, the counter is incremented exactly once on every path and its new value is what is returned, and the last-fault timestamp is stored on every path. Option constructor: WithExponentialBackoff stores delays only when initialDelay > 0 and forces maxDelay >= initialDelay. handleRestartDirective: the budget test dominates every restart and the backoff delay is computed from the faulty child's count. Added after seed C07a: the consecutive-fault counter and its timestamp are modified only by recordFault (a restart's reset of per-incarnation fields must not erase the faults recorded on a restart group).",
 		assumptions: []string{"int64 two's-complement arithmetic of time.Duration", "behaviour over sequences of faults and wall-clock gaps (only the per-call arithmetic shape is decided)"},
 		minObl:     17,
 		run:        runC08,
